@@ -553,8 +553,10 @@ package internals
 // UnwrapPtr follows pointers to the value they point to (reflect loop: trusted).
 //@ specfun unwrapped(Iface) Iface
 //@ func UnwrapPtr(x)
-//@   trusted
+//@   trusted_posts
 //@   pure
+//@   loop for.loop#1
+//@     invariant rv_caniface(refVal)
 //@   ensures result == unwrapped(x)
 //@   ensures istype(result, DpFactory) ==> istype(x, DpFactory)
 
